@@ -25,6 +25,12 @@ class LikelihoodList(Likelihood):
             for likelihood, args_ in length_safe_zip(self.likelihoods, _get_tuple_args_(*args))
         ]
 
+    def log_marginal(self, *args, **kwargs):
+        return [
+            likelihood.log_marginal(*args_, **kwargs)
+            for likelihood, args_ in length_safe_zip(self.likelihoods, _get_tuple_args_(*args))
+        ]
+
     def forward(self, *args, **kwargs):
         if "noise" in kwargs:
             noise = kwargs.pop("noise")
